@@ -193,6 +193,12 @@ def streams(ctx):
                 for v, a in zip(c["vs"], aa):
                     f += [v, a[1], a[2]]
                 l = vlib.line("pypi.exists", c["sp"], aa[-1][0], *f)
+                # the property itself, with the PEP 440 library as the judge: a specifier set admits "some available version" iff the
+                # library parses the set and one of the versions and says the set contains it
+                want = "T" if aa[-1][0] == "1" and any(a[1] == "1" and a[2] == "1" for a in aa[:n]) else "F"
+                if c["sp"].strip() and o in ("T", "F") and o != want:
+                    der.append({"req": vlib.line("pypi.base", c["sp"]), "index": i, "history": [c["req"]],
+                                "check": (lambda out, o=o, want=want, c=c: ("violation", f"pypi: specifier {c['sp']!r} against {c['vs']}: version_exists says {o}, PEP 440 (pep440_rs) says {want}"))})
             der.append({"req": l, "index": i, "history": [c["req"]],
                         "check": (lambda out, o=o, c=c: None if out == o else ("model", f"PyPI matcher {c['kind']} {c['sp']!r}: implementation {o}, model {out}"))})
         return der
